@@ -84,6 +84,14 @@ type IterProto struct {
 	At     *SExpr   // ghost index of a callback call when the callback has no index parameter (evaluated at the call site, e.g. $i)
 }
 
+// RetLetText: witness bindings for the K-th return statement whose source line starts with Text
+type RetLetText struct {
+	Text string
+	K    int
+	Lets map[string]*SExpr
+	used bool
+}
+
 type FuncContract struct {
 	Pkg          string
 	Key          string // "Recv.Name" or "Name"
@@ -110,6 +118,7 @@ type FuncContract struct {
 	Src          string
 	NoSafety     bool
 	RetLets      map[int]map[string]*SExpr
+	RetLetsText  []RetLetText
 	Placeholder  bool   // declared in an *_api_verif.go file: replaced by a contract of the same key elsewhere
 	PureAs       string // the (deterministic, frame-free) result is this uninterpreted spec function of receiver and arguments
 	Reveal       []string
@@ -534,8 +543,33 @@ func (cs *Contracts) parseItem(pkg string, it item, w, where string, pcurF **Fun
 				curF.RetHaves = append(curF.RetHaves, parseClause(strings.TrimPrefix(rest, "have "), w))
 				break
 			}
-			if f := strings.Fields(rest); it.kw == "ret" && len(f) > 2 && f[1] == "let" {
-				// ret N let $a = e ; $b = e
+			if f := strings.Fields(rest); it.kw == "ret" && ((len(f) > 2 && f[1] == "let") || (strings.HasPrefix(rest, "\"") && strings.Contains(rest, " let "))) {
+				// ret N let $a = e ; $b = e      (N = ordinal of the return site), or
+				// ret "text"#K let ...           (the K-th return statement whose source line starts with text; robust against
+				//                                 return sites added or removed elsewhere in the function)
+				if strings.HasPrefix(rest, "\"") {
+					end := strings.Index(rest[1:], "\"")
+					if end < 0 {
+						panic(w + ": ret \"text\"#K let ...")
+					}
+					txt := rest[1 : 1+end]
+					after := strings.TrimSpace(rest[2+end:])
+					k := 1
+					if strings.HasPrefix(after, "#") {
+						fmt.Sscan(after[1:], &k)
+					}
+					lets := map[string]*SExpr{}
+					body := strings.TrimSpace(after[strings.Index(after, "let")+3:])
+					for _, part := range strings.Split(body, ";") {
+						kv := strings.SplitN(part, "=", 2)
+						if len(kv) != 2 {
+							panic(w + ": ret let: name = expr")
+						}
+						lets[strings.TrimSpace(kv[0])] = parseExprText(kv[1], w)
+					}
+					curF.RetLetsText = append(curF.RetLetsText, RetLetText{Text: txt, K: k, Lets: lets})
+					break
+				}
 				n, err := strconv.Atoi(f[0])
 				if err != nil {
 					panic(w + ": ret N let ...")
